@@ -154,14 +154,17 @@ def _check_extraction(ck, h, rec):
     is_msg = _msg_store_pred(rec)
     stores = h.cfg.stmt_nodes(is_msg)
     for s_ in stores:
-        v = s_.ast.value
+        from ..x_flow import resolve_local
+        v = resolve_local(h, s_.ast.value)
         in_handler = any(isinstance(a, ast.ExceptHandler) for a in q.ancestors(pm, s_.ast))
         if in_handler:
+            if isinstance(v, (ast.Name, ast.Call, ast.Attribute)):
+                raise AnalysisError("format(): the fallback message %s is not built in place (not followed)" % q.unparse(v)[:60])
             ok = isinstance(v, (ast.JoinedStr, ast.Constant)) or (isinstance(v, ast.BinOp) and isinstance(v.op, ast.Mod) and isinstance(v.left, ast.Constant))
             ck.ob("C45.message-set", h, s_.ast, ok, "the fallback message is built by plain string formatting of reprs (nothing that re-applies the caller's format)")
         else:
             calls = [c for c in q.calls(s_.ast) if q.call_attr(c) not in ("_safe_unicode", "str", "repr")]
-            ok = protected(pm, v, "Exception") is not None if calls or isinstance(v, ast.Call) else True
+            ok = protected(pm, s_.ast.value, "Exception") is not None if calls else True  # _safe_unicode/str/repr of a str cannot raise (C45.safe-unicode)
             ck.ob("C45.message-guard", h, s_.ast, ok, "the conversion of the extracted message runs under the same kind of handler")
     return len(gm), len(stores)
 
